@@ -38,6 +38,7 @@ type ctlrunIn struct {
 	OrigMode int  `json:"orig_mode"`
 	OrigPwm  int  `json:"orig_pwm"`
 	Top      int  `json:"top"` // highest key of the configured PWM map = where the RPM measurement leaves the fan
+	MaxPwm   int  `json:"max_pwm,omitempty"` // configured maxPwm (0 = not configured)
 }
 type ctlrunObs struct {
 	Ret     int      `json:"ret"` // 0 Run returned nil, 1 returned an error, 2 panicked, 3 did not return
@@ -60,6 +61,8 @@ const (
 	ctlrunCancel          = 6 // context cancelled while ticking
 	ctlrunPlaceholderSave = 7 // minPwm+maxPwm configured, SaveFanPwmData fails: nothing touched
 	ctlrunInitFails       = 8 // RPM read fails during the initialisation sequence
+	ctlrunStallAtMax      = 9 // never-stop fan that does not turn, curve asks for the maximum: stalled at max PWM in the second cycle
+	ctlrunStallWalk       = 10 // ... curve asks for half speed: the minimum is raised step by step until the maximum is reached
 )
 
 type ctlrunPers struct {
@@ -89,10 +92,11 @@ func (p *ctlrunPers) SaveFanPwmData(fan fans.Fan) error {
 }
 
 type ctlrunCurve struct {
-	n    int
-	at   int
-	fire func()
-	fail bool
+	n     int
+	at    int
+	fire  func()
+	fail  bool
+	konst int // > 0: constant curve value
 }
 
 func (c *ctlrunCurve) GetId() string { return "ctlrun_curve" }
@@ -103,6 +107,9 @@ func (c *ctlrunCurve) Evaluate() (int, error) {
 	}
 	if c.fail && c.n >= c.at {
 		return 0, errors.New("injected: sensor read failed")
+	}
+	if c.konst > 0 {
+		return c.konst, nil
 	}
 	return 40 + 30*(c.n%3), nil
 }
@@ -138,7 +145,22 @@ func ctlrunRun(ctx *Ctx, seq int, in ctlrunIn) (ctlrunObs, string, []string) {
 	}
 	fc := configuration.FanConfig{ID: fmt.Sprintf("ctlrun%d", seq), Curve: "ctlrun_curve",
 		HwMon: &configuration.HwMonFanConfig{PwmPath: pwmPath, PwmEnablePath: enPath, RpmInputPath: rpmPath}}
-	if in.Scn == ctlrunNoRpmSensor {
+	stall := in.Scn == ctlrunStallAtMax || in.Scn == ctlrunStallWalk
+	if in.MaxPwm > 0 {
+		v := in.MaxPwm
+		fc.MaxPwm = &v
+	}
+	if stall {
+		os.WriteFile(rpmPath, []byte("0"), 0644)
+		fc.NeverStop = true
+		hi := 60
+		fc.MaxPwm = &hi
+		pm := map[int]int{}
+		for i := 0; i <= 255; i++ {
+			pm[i] = i
+		}
+		fc.PwmMap = &pm
+	} else if in.Scn == ctlrunNoRpmSensor {
 		sp := in.Top
 		fc.StartPwm = &sp // the sweep ends with SetPwm(startPwm)
 	} else {
@@ -154,9 +176,12 @@ func ctlrunRun(ctx *Ctx, seq int, in ctlrunIn) (ctlrunObs, string, []string) {
 		panic(err)
 	}
 	pers := &ctlrunPers{Persistence: persistence.NewPersistence(filepath.Join(dir, "fan2go.db")), scn: in.Scn}
-	if in.Scn >= ctlrunErrDeviceGone && in.Scn <= ctlrunCancel {
+	if (in.Scn >= ctlrunErrDeviceGone && in.Scn <= ctlrunCancel) || stall {
 		// characterised earlier: stored data exists
 		data := map[int]float64{0: 0, in.Top: 1200}
+		if stall {
+			data = map[int]float64{0: 0, 40: 1200, 60: 1300} // starts at 40, no gain above 60
+		}
 		_ = fan.AttachFanRpmCurveData(&data)
 		if err := pers.Persistence.SaveFanPwmData(fan); err != nil {
 			panic(err)
@@ -176,6 +201,9 @@ func ctlrunRun(ctx *Ctx, seq int, in ctlrunIn) (ctlrunObs, string, []string) {
 		mu.Lock()
 		defer mu.Unlock()
 		ops = append(ops, filepath.Base(path)+"="+strings.TrimSpace(string(data)))
+		if stall && path == pwmPath && strings.TrimSpace(string(data)) == strconv.Itoa(in.OrigPwm) {
+			armed = true // regulation stays within 40..61: this is the restore's SetPwm(originalPwmValue)
+		}
 		if armed && cancelRun != nil {
 			// the restore has begun: cancel the context so that the RPM monitor returns and Run can return
 			cancelRun()
@@ -215,6 +243,10 @@ func ctlrunRun(ctx *Ctx, seq int, in ctlrunIn) (ctlrunObs, string, []string) {
 		curve.fire = func() { mu.Lock(); armed = true; mu.Unlock() }
 	case ctlrunCancel:
 		curve.fire = cancel
+	case ctlrunStallAtMax:
+		curve.konst = 255
+	case ctlrunStallWalk:
+		curve.konst = 128
 	}
 	c := controller.VerifNewController(pers, fan, curve, control_loop.NewDirectControlLoop(nil), 3*time.Millisecond)
 	var obs ctlrunObs
@@ -233,7 +265,7 @@ func ctlrunRun(ctx *Ctx, seq int, in ctlrunIn) (ctlrunObs, string, []string) {
 	}()
 	select {
 	case <-done:
-	case <-time.After(20 * time.Second):
+	case <-time.After(time.Duration(ctx.Param("giveup_s", 6)) * time.Second):
 		cancel()
 		select {
 		case <-done:
@@ -258,10 +290,13 @@ func ctlrunRun(ctx *Ctx, seq int, in ctlrunIn) (ctlrunObs, string, []string) {
 	}
 	dev := func(m, p int) string { return "(mkDev " + cZ(m) + " " + cZ(p) + ")" }
 	coq := cRec("mkCase", cBool(in.Exists), dev(in.OrigMode, in.OrigPwm), cZ(in.Scn), cZ(in.Top),
-		cZ(obs.Ret), cBool(obs.Touched), dev(obs.Mode, obs.Pwm))
+		cZ(obs.Ret), cBool(obs.Touched), dev(obs.Mode, obs.Pwm), cZ(obs.Evals))
 	tags := []string{fmt.Sprintf("scn=%d", in.Scn), fmt.Sprintf("ret=%d", obs.Ret), fmt.Sprintf("origmode=%d", in.OrigMode)}
 	if !in.Exists {
 		tags = append(tags, "no-pwm-enable")
+	}
+	if in.MaxPwm > 0 || stall {
+		tags = append(tags, "maxpwm-configured")
 	}
 	return obs, coq, tags
 }
@@ -293,10 +328,15 @@ func init() {
 				reps = ctx.Param("reps", 6)
 			}
 			for r := 0; r < reps; r++ {
-				for scn := 1; scn <= 8; scn++ {
+				for scn := 1; scn <= 10; scn++ {
 					for _, om := range []int{2, 1, 0} {
 						in := ctlrunIn{Scn: scn, Exists: !(om == 0 && rng.Chance(1, 2)), OrigMode: om,
 							OrigPwm: rng.Pick([]int{0, 77, 120, 255}), Top: rng.Pick([]int{120, 200, 240})}
+						if scn >= 9 {
+							in.OrigPwm = rng.Pick([]int{77, 120, 255})
+						} else if scn != ctlrunPlaceholderSave && rng.Chance(1, 2) {
+							in.MaxPwm = 200 // a configured maxPwm must not cap the last-resort write
+						}
 						jobs = append(jobs, in)
 						jt = append(jt, "generated")
 					}
